@@ -185,8 +185,9 @@ def run(ctx):
         elif code in (2, 3, 4, 5) and n_rep < 5:
             n_rep += 1
             obs = it["obs"]
-            ctx.violation("executing the compiled program differs from direct execution (" + sc.BCODE[code] + "): a live "
-                          "register was reused",
+            ctx.violation("executing the compiled program differs from direct execution (" + sc.BCODE[code] + "); on "
+                          "these programs every register is live in some way (open loops, loop_register=, "
+                          "new_register): typically a live register was reused",
                           dict(sdk_program=it["prog"], outcome_script=it["script"], prog=it["prog"],
                                pipeline=dict(status=obs["status"], error=obs.get("exc"), msg=obs.get("msg"),
                                              trace=obs["trace"][:60], final_arrays=obs["final_arrays"])), key=None)
